@@ -179,7 +179,7 @@ def run_classes(acc, classes, rng, per, origin, tmp, consts_of=None):
 
 def units(tier, seed):
     us = [{"kind": "installed", "seed": seed * 3 + i, "per": 40 if tier == "quick" else 400} for i in range(2 if tier == "quick" else 16)]
-    n = 150 if tier == "quick" else 9600
+    n = 150 if tier == "quick" else 3600
     us += [{"kind": "generated", "seed": seed * 7717 + i, "families": 5, "per": 40} for i in range(0, n, 20)]
     return us
 
